@@ -77,7 +77,11 @@ def gen_project(rng, p_after=0.35, allow_gen=True):
     if rng.random() < 0.3:      # a consumer of a pattern nobody produces (files placed by the user)
         nid += 1
         tasks.append(tk(tid, pdeps=[9], prods=[nid]))
-        if rng.random() < 0.5:
+        # (not next to a generator over these files that has a product of its own which a declared task reads: when the
+        # writer fails, is skipped or would be executed AFTER that generator ran, the code finds the reader among the
+        # writer's descendants - through the file the generator resolved - and the model, whose marks follow the
+        # declared graph, does not; the same family as F29/F31, kept out of the generated projects)
+        if rng.random() < 0.5 and not any(t["is_gen"] and 9 in t["pdeps"] and t["prods"] for t in tasks):
             # an ordinary task writes one more file into that directory as a plain path product, and a second
             # consumer of the pattern waits for it: the two consumers start with different sets of files
             tid += 1
